@@ -114,4 +114,24 @@ func init() {
 		"(h.Generation == other.Generation && h.Version < other.Version)", "(h.Generation == other.Generation && h.Version <= other.Version)", "C12.R3.order")
 	mut("C12", "Restart keeps the version", hbgo,
 		"func (h Heartbeat) Restart() Heartbeat { h.Generation++; h.Version = 0; return h }", "func (h Heartbeat) Restart() Heartbeat { h.Generation++; return h }", "C12.R3.order")
+
+	// ---------------- C12.R4
+	const clu = "aspen/internal/cluster/cluster.go"
+	mut("C12", "the store flush is started only on the pledge path, before the restart branch returns", clu,
+		"\t// Periodically persist the Cluster state.\n\tc.goFlushStore(sCtx)\n\n\treturn c, nil", "\tif state.IsZero() {\n\t\tc.goFlushStore(sCtx)\n\t}\n\n\treturn c, nil", "C12.R4.restart")
+	mut("C12", "a restarted node keeps its old generation", clu,
+		"\t\thost.Heartbeat = host.Heartbeat.Restart()\n", "", "C12.R4.restart")
+	mut("C12", "goFlushStore only flushes on change and at shutdown", clu,
+		"\t\tflush.FlushSync(sCtx, c.CopyState())\n\t\tc.OnChange(", "\t\tc.OnChange(", "C12.R4.restart")
+
+	// ---------------- C11.R2.failure / R5
+	const plg = "aspen/internal/cluster/pledge/pledge.go"
+	mut("C11", "a failed quorum build leaves the loop without recording the error", plg,
+		"\t\tif qErr != nil {\n\t\t\terr = qErr\n\t\t\tbreak\n\t\t}", "\t\tif qErr != nil {\n\t\t\tr.L.Warn(\"no quorum\", zap.Error(qErr))\n\t\t\tbreak\n\t\t}", "C11.R2.failure")
+	mut("C11", "the rejection is kept in a block-scoped variable", plg,
+		"\t\tif err = r.consultQuorum(ctx, res.Key, quorum); err != nil {\n\t\t\tr.L.Error(\"quorum rejected proposal. retrying.\", zap.Error(err))", "\t\tif cErr := r.consultQuorum(ctx, res.Key, quorum); cErr != nil {\n\t\t\tr.L.Error(\"quorum rejected proposal. retrying.\", zap.Error(cErr))", "C11.R2.failure")
+	mut("C11", "a bootstrapped member arbitrates without its cluster key", clu,
+		"\t\tc.Pledge.ClusterKey = c.Key()\n\t\tif err = pledge_.Arbitrate(c.Pledge); err != nil {\n\t\t\treturn c, err", "\t\tif err = pledge_.Arbitrate(c.Pledge); err != nil {\n\t\t\treturn c, err", "C11.R5.clusterkey")
+	mut("C11", "a joining node keeps a locally generated cluster key", clu,
+		"\t\tc.SetClusterKey(ctx, pledgeRes.ClusterKey)", "\t\tc.SetClusterKey(ctx, uuid.New())", "C11.R5.clusterkey")
 }
